@@ -101,6 +101,13 @@ def skeleton(eng, name, P):
         b1 = [('BF', T2, {'mode': 'ok'}, []), ('BF', T1, {'mode': 'ok'}, []), q_hole(eng, '0', kinds, [P1, TS])]
         b2 = ([('BF', T1, {'mode': 'ok'}, [])] if keep else []) + [q_hole(eng, '0', kinds, [P1, TS])]
         return [b1, b2]
+    if name == 'A13':
+        # "look at my previous output, then regenerate it": a caching function asks about a path (or its directory) and only
+        # then has its own nested build_file create that path
+        t = pick(eng, 't', targets)
+        import posixpath
+        return [[('SB', 's', {}, [q_hole(eng, '0', kinds, [t, posixpath.dirname(t)]), ('BF', t, bf_opts(eng, '0', modes, catch=True), []),
+                                  q_hole(eng, '1', kinds, [t])])]]
     if name == 'A12':
         # an output (possibly at a foreign file's position) is built first; then a build_file whose target name the OS
         # refuses - an embedded NUL byte (ValueError from every os call) or 256 characters (OSError) - fails, caught or not
